@@ -15,7 +15,7 @@ open TraitsVerif TraitsVerif.Model.Obs TraitsVerif.Proto
 
 def names : List String :=
   ["value", "mate", "child", "kids", "byname", "group", "trait_added", "trait_modified",
-   "extra", "xchild", "items", "nosuch"]
+   "extra", "xchild", "items", "nosuch", "ichild", "nchild"]
 
 def nameOf (n : Name) : String := names.getD n s!"n{n}"
 def name? (s : String) : Option Name := names.findIdx? (· == s)
@@ -158,11 +158,16 @@ def showNotifiers (ns : List Notifier) : String :=
 
 structure DSt where
   n : Nat                       -- pool size
+  cls : List Nat := []          -- `==` classes of the pool objects (`a == b` iff same class)
   st : St
   conts : List Id               -- declared container identities (ascending as declared)
   deadH : List Nat
 
-def DSt.env (d : DSt) : Env := { deadH := fun x => d.deadH.contains x }
+def DSt.env (d : DSt) : Env :=
+  { deadH := fun x => d.deadH.contains x
+    eqo := fun i j => match d.cls[i]?, d.cls[j]? with
+      | some a, some b => a == b
+      | _, _ => false }
 
 def showPop (d : DSt) : String :=
   let objs := (List.range d.n).flatMap (fun o =>
@@ -245,14 +250,17 @@ def stepOp (d : DSt) (op : Op) : DSt × String :=
   (d4, stat ++ " D{" ++ dstr ++ "} P{" ++ pstr ++ "} N{" ++ showPop d4 ++ "}")
 
 def initFields (childDflt : Val) : List Field :=
-  [⟨0, false, .val (.int 0), .unset⟩,
-   ⟨1, true, .val .none, .unset⟩,
-   ⟨2, false, .val childDflt, .unset⟩,
-   ⟨3, false, .newList, .unset⟩,
-   ⟨4, false, .newDict, .unset⟩,
-   ⟨5, false, .newSet, .unset⟩,
-   ⟨6, false, .val .undef, .unset⟩,
-   ⟨7, false, .val .undef, .unset⟩]
+  [⟨0, false, .val (.int 0), .unset, .equality⟩,
+   ⟨1, true, .val .none, .unset, .equality⟩,
+   ⟨2, false, .val childDflt, .unset, .equality⟩,
+   ⟨3, false, .newList, .unset, .equality⟩,
+   ⟨4, false, .newDict, .unset, .equality⟩,
+   ⟨5, false, .newSet, .unset, .equality⟩,
+   -- Instance(HasTraits, comparison_mode=identity / none)
+   ⟨12, false, .val .none, .unset, .identity⟩,
+   ⟨13, false, .val .none, .unset, .none⟩,
+   ⟨6, false, .val .undef, .unset, .equality⟩,
+   ⟨7, false, .val .undef, .unset, .equality⟩]
 
 def initHeap (dflts : List Val) : Heap :=
   dflts.zipIdx.map (fun p => (p.2, Obj.inst (initFields p.1)))
@@ -266,13 +274,18 @@ def runOps : DSt → List Op → List String
 def handle (line : String) : String :=
   match (clean line).splitOn "|" with
   | [_, n, dflts, ops] =>
-    match nat? n, (fields dflts ",").mapM refVal?, (fields ops ";").mapM parseOp with
-    | some n, some dflts, some ops =>
+    let ents := fields dflts ","
+    let dpart := ents.map (fun e => (e.splitOn "~").headD "")
+    let cpart := ents.zipIdx.mapM (fun (p : String × Nat) => match p.1.splitOn "~" with
+      | [_, c] => nat? c
+      | _ => some p.2)
+    match nat? n, dpart.mapM refVal?, (fields ops ";").mapM parseOp, cpart with
+    | some n, some dflts, some ops, some cls =>
       if dflts.length != n then "bad-case"
       else
-        let d : DSt := ⟨n, ⟨initHeap dflts, Hooks.empty⟩, [], []⟩
+        let d : DSt := { n := n, cls := cls, st := ⟨initHeap dflts, Hooks.empty⟩, conts := [], deadH := [] }
         " ; ".intercalate (runOps d ops)
-    | _, _, _ => "bad-case"
+    | _, _, _, _ => "bad-case"
   | _ => "bad-case"
 
 end TraitsVerif.Driver.Obs
